@@ -8,6 +8,7 @@ import (
 	"strings"
 
 	"github.com/relab/hotstuff"
+	"github.com/relab/hotstuff/core"
 	"github.com/relab/hotstuff/internal/proto/clientpb"
 	"github.com/relab/hotstuff/security/crypto"
 )
@@ -29,7 +30,11 @@ func c02SortedKeys(m map[uint64]*c02QC) []uint64 {
 	return ks
 }
 
-func (w *c02World) mkAgg(qcs map[uint64]*c02QC, sig c02Sig, view uint64) *c02Agg {
+func (w *c02World) mkAgg(logical map[uint64]*c02QC, sig c02Sig, view uint64) *c02Agg {
+	qcs := make(map[uint64]*c02QC, len(logical)) // keyed by the replica id itself
+	for k, q := range logical {
+		qcs[w.id(k)] = q
+	}
 	gm := make(map[hotstuff.ID]hotstuff.QuorumCert, len(qcs))
 	var ts []string
 	for _, k := range c02SortedKeys(qcs) {
@@ -69,7 +74,7 @@ func (w *c02World) evalAgg(st *c02Streams, a *c02Agg, mut string, honest bool) {
 	// ground truth: who genuinely signed its own timeout message for the stated view and reported QC
 	signers := map[uint64]bool{}
 	for _, c := range a.sig.contribs {
-		if c.msg.kind != 'T' || c.msg.id != c.signer || c.msg.view != a.view || c.signer < 1 || c.signer > uint64(w.n) {
+		if c.msg.kind != 'T' || c.msg.id != c.signer || c.msg.view != a.view || !w.isMember(c.signer) {
 			continue
 		}
 		if q, ok := a.qcs[c.signer]; ok && c.msg.dig == int64(q.dig) {
@@ -106,6 +111,16 @@ func (w *c02World) evalAgg(st *c02Streams, a *c02Agg, mut string, honest bool) {
 					}
 				}
 				meta["high_qc"] = map[string]any{"digest": hd, "view": fmt.Sprint(hv)}
+			}
+			if !cache && w.grow == nil {
+				var hl hotstuff.QuorumCert
+				ol := c02Run(func() error {
+					h, err := w.long[vi].VerifyAggregateQC(a.obj)
+					hl = h
+					return err
+				})
+				w.oracle(ol == o && (o != "ok" || hl.View() == high.View()), "aggqc:stateful-verdict",
+					"a long-lived Authority (no cache) answers "+ol+" where a fresh one answers "+o+" (or another high QC view)", meta)
 			}
 			w.v.Seen(fmt.Sprintf("agg|%s|%d|%s|%d|%v", w.scheme, w.n, a.term, vi, cache), len(a.sig.labels) >= w.q && len(a.qcs) > 0, meta)
 			w.v.Count("agg:" + mut)
@@ -150,11 +165,11 @@ func (w *c02World) evalAgg(st *c02Streams, a *c02Agg, mut string, honest bool) {
 			w.v.Case(st.agg, fmt.Sprintf("(%s,%s,%s,%s,(%d,%d))", w.cfgTerm(false), w.storeTm, a.term, c02Obs(o), hd, hv), meta)
 
 			// BatchVerify directly on the crypto base with the same batch (cache off only)
-			if !cache && !w.repeat && a.sig.obj != nil {
+			if !cache && !w.repeat && w.grow == nil && a.sig.obj != nil {
 				batch := map[hotstuff.ID][]byte{}
 				var bt []string
 				for _, k := range c02SortedKeys(a.qcs) {
-					m := w.mTimeout(k, a.view, a.qcs[k])
+					m := w.mTimeoutA(k, a.view, a.qcs[k])
 					batch[hotstuff.ID(k)] = m.bytes
 					bt = append(bt, fmt.Sprintf("(%d,%s)", k, m.term()))
 				}
@@ -169,7 +184,7 @@ func (w *c02World) evalAgg(st *c02Streams, a *c02Agg, mut string, honest bool) {
 			}
 
 			// VerifyAnyQC on proposals carrying this AggregateQC (aggregate QCs enabled / disabled)
-			if vi == 0 && !cache && !w.repeat && a.sig.obj != nil {
+			if vi == 0 && !cache && !w.repeat && w.grow == nil {
 				var bqcs []*c02QC
 				if hq != nil {
 					bqcs = append(bqcs, hq)
@@ -208,7 +223,7 @@ func (w *c02World) evalAgg(st *c02Streams, a *c02Agg, mut string, honest bool) {
 func (w *c02World) membersTerm() string {
 	ids := make([]string, w.n)
 	for i := range ids {
-		ids[i] = fmt.Sprint(i + 1)
+		ids[i] = fmt.Sprint(w.ids[i])
 	}
 	return "[" + strings.Join(ids, ";") + "]"
 }
@@ -241,10 +256,23 @@ func c02AggStream(w *c02World, st *c02Streams) {
 	w.evalAgg(st, build(Q, v, all(qBad5)), "all-qcs-invalid", false)
 	w.evalAgg(st, build(N, v, cyc(q2, q2b, q2alt)), "highest-tie", true)
 	w.evalAgg(st, build(N, v, cyc(q2, qH)), "extreme-view-highest", true)
+	// the order in which VerifyAggregateQC sees the QCs comes from Go's map iteration: repeat
+	for rep := 0; rep < 5; rep++ {
+		w.repeat = true
+		w.evalAgg(st, build(N, v, cyc(q2, qBad5, q1)), "highest-invalid-falls-through", n >= 3)
+		w.evalAgg(st, build(N, v, cyc(q2, q2b, q2alt)), "highest-tie", true)
+		w.evalAgg(st, build(N, v, cyc(q2, qH, q1, q5)), "extreme-view-highest", true)
+		w.evalAgg(st, build(N, v, cyc(q1, qRep, q5, qRel)), "invalid-qcs-in-pool", n >= 4)
+	}
+	w.repeat = false
 	w.evalAgg(st, build(N, v, cyc(q2, qRel)), "relabelled-view-qc-in-pool", n >= 2)
 	w.evalAgg(st, build(N, v, cyc(q1, qGenRel)), "relabelled-genesis-qc-in-pool", n >= 2)
 	w.evalAgg(st, build(N, v, cyc(q1, qRep)), "repeated-signer-qc-in-pool", n >= 2)
 	w.evalAgg(st, build(N, v, cyc(q5, q1, gQC)), "honest-high-5", true)
+	// behind the successful batch verification: a highest QC whose block is unknown is skipped, one
+	// whose block has to be fetched is used
+	w.evalAgg(st, build(N, v, cyc(q2, hon("BM", 3))), "highest-qc-block-unknown", n >= 2)
+	w.evalAgg(st, build(N, v, cyc(q2, hon("BF", 7), q5)), "highest-qc-block-fetched", true)
 	w.evalAgg(st, build(N, 1<<63, cyc(q1, gQC)), "honest-extreme-aggqc-view", true)
 
 	// structural mutations of an honest AggQC by signers N (or Q) reporting cyc(q1,q2)
@@ -357,7 +385,7 @@ func c02AggStream(w *c02World, st *c02Streams) {
 
 	// seeded random stream: random signer set, random QC assignment, one random edit
 	pool := []*c02QC{gQC, q1, q2, q5, q2b, qBad5, qRel, q2alt, qGenRel}
-	for k := 0; k < w.v.Pick(12, 250); k++ {
+	for k := 0; k < w.rnd(12, 250); k++ {
 		r := w.v.rng
 		cnt := q - 1 + r.Intn(3)
 		if cnt > n+1 {
@@ -400,5 +428,69 @@ func c02AggStream(w *c02World, st *c02Streams) {
 			}
 		}
 		w.evalAgg(st, w.mkAgg(c02QCMap(keys, of), w.render(c02Spec{parts: ps}), stated), "random", false)
+	}
+}
+
+// c02GrowthStream: one Authority per cache setting is created while the configuration has three
+// replicas; replicas are then added to the SAME RuntimeConfig (3 -> 4 -> 6, quorum 2 -> 3 -> 4) and the
+// same Authority keeps verifying.  Every verdict must be the one for the membership at call time.
+func c02GrowthStream(v *verifOut, st *c02Streams, scheme string, ids []uint64) {
+	w := c02NewWorldIDs(v, scheme, 6, ids)
+	w.sparse = ids != nil
+	w.n, w.q = 3, hotstuff.QuorumSize(3)
+	g := &c02Grow{auths: map[bool]*Authority{}}
+	var cfgs []*core.RuntimeConfig
+	for _, cache := range []bool{false, true} {
+		var opts []core.RuntimeOption
+		if cache {
+			opts = append(opts, core.WithCache(8))
+		}
+		cfg := core.NewRuntimeConfig(hotstuff.ID(w.ids[0]), w.keys[0], opts...)
+		base, err := crypto.New(cfg, scheme)
+		if err != nil {
+			panic(err)
+		}
+		for j := 0; j < 3; j++ {
+			info := w.infos[j]
+			cfg.AddReplica(&info)
+		}
+		cfgs = append(cfgs, cfg)
+		g.auths[cache] = NewAuthority(cfg, w.chain, base)
+	}
+	w.grow = g
+	w.cacheCap = 8
+	gQC := w.mkQC(w.render(c02Spec{absent: true}), 0, "G")
+	suite := func(tag string) {
+		n, q := w.n, w.q
+		mB1, mV := w.mBlock("B1"), w.mView(4)
+		for _, c := range []struct {
+			name   string
+			ids    []uint64
+			honest bool
+		}{
+			{"honest-q", c02Range(1, q), true},
+			{"honest-n", c02Range(1, n), true},
+			{"honest-last-q", c02Range(n-q+1, n), true},
+			{"sub-quorum", c02Range(1, q-1), false},
+			{"repeated-newest-member", c02Rep(uint64(n), q), false},
+			{"next-member-not-yet-added", append(c02Range(2, q), uint64(n+1)), false},
+		} {
+			name := "grow:" + tag + ":" + c.name
+			w.evalQC(st, w.mkQC(w.render(c02Spec{parts: w.genuine(c.ids, mB1)}), 1, "B1"), name, c.honest)
+			w.evalTC(st, w.mkTC(w.render(c02Spec{parts: w.genuine(c.ids, mV)}), 4), name, c.honest)
+			qcOf := func(uint64) *c02QC { return gQC }
+			w.evalAgg(st, w.mkAgg(c02QCMap(c.ids, qcOf), w.render(c02Spec{parts: w.aggParts(c.ids, 6, qcOf)}), 6), name, c.honest)
+		}
+	}
+	suite("n=3")
+	for _, upto := range []int{4, 6} {
+		for j := w.n; j < upto; j++ {
+			for _, cfg := range cfgs {
+				info := w.infos[j]
+				cfg.AddReplica(&info)
+			}
+		}
+		w.n, w.q = upto, hotstuff.QuorumSize(upto)
+		suite(fmt.Sprintf("n=%d", upto))
 	}
 }
